@@ -372,19 +372,20 @@ WellFormed(x) ==
 (* rational properties as <<num, den>> of the closest small fraction with  *)
 (* err[..] the distance to it in units of 1 ulp).                          *)
 (***************************************************************************)
-RatTol == 64        \* ulps: a sum of <= 60 correctly rounded positive terms
+RatTol == 1024      \* ulps (2e-13 relative): sums of <= 300 rounded positive terms
 
+Positions(S) ==     \* <<array, "p" | "c", name, index>> of every stored value
+    UNION {UNION {{<<a, "p", n, i>> : i \in DOMAIN S[a].p[n]} : n \in DOMAIN S[a].p}
+           \cup UNION {{<<a, "c", n, i>> : i \in DOMAIN S[a].c[n]} : n \in DOMAIN S[a].c}
+           : a \in DOMAIN S}
+Agrees(x, want, got, m) ==
+    IF m[2] = "c" THEN got[m[1] + 1].c[m[3]][m[4]] = want[m[1]].c[m[3]][m[4]]
+    ELSE IF m[3] \in SetOfSeq(x.rat)
+         THEN /\ got[m[1] + 1].p[m[3]][m[4]] = want[m[1]].p[m[3]][m[4]]
+              /\ got[m[1] + 1].err[m[3]][m[4]] <= RatTol
+         ELSE got[m[1] + 1].p[m[3]][m[4]] = want[m[1]].p[m[3]][m[4]]
 \* positions at which a recorded state differs from the expected one
-Mismatch(x, want, got) ==
-    {<<a, kind, n, i>> \in
-        UNION {UNION {{<<a, "p", n, i>> : i \in DOMAIN want[a].p[n]} : n \in DOMAIN want[a].p}
-               \cup UNION {{<<a, "c", n, i>> : i \in DOMAIN want[a].c[n]} : n \in DOMAIN want[a].c}
-               : a \in DOMAIN want} :
-        IF kind = "p"
-        THEN (IF n \in SetOfSeq(x.rat)
-              THEN ~(got[a + 1].p[n][i] = want[a].p[n][i] /\ got[a + 1].err[n][i] <= RatTol)
-              ELSE got[a + 1].p[n][i] # want[a].p[n][i])
-        ELSE got[a + 1].c[n][i] # want[a].c[n][i]}
+Mismatch(x, want, got) == {m \in Positions(want) : ~Agrees(x, want, got, m)}
 
 \* binding of the symbol table to precomputed_symbols(): x.symtab[n] =
 \* [deps, arrs] as extracted from the code blocks of the real function
